@@ -729,45 +729,50 @@ def run(ctx):
                 bg_res["err"] = e
         bg = threading.Thread(target=background)
         bg.start()
-        rt = ctx.tlc_must_hold("ReproTokenizer", "MC_ReproTokenizer_bnd_thorough.cfg", workers=W, want_tags={"CASE"})
-        ct = load_cases(rt)
-        plan = [([c for c in ct if len(c["ls"]) <= 3], ["canonical", "ascii", "wild", "wild", "wild", "wild"]),
-                ([c for c in ct if len(c["ls"]) == 4], ["canonical", "wild"]),
-                ([c for c in ct if len(c["ls"]) == 5], ["wild"])]
+        plan = None
         ctx.extra["model_constants"] = {"classes": 11, "max_lines_full_alphabet": "4 replayed, 5 model-checked",
                                         "max_lines_8_classes": "5 replayed", "max_lines_6_classes": "6 model-checked",
                                         "modes": ["T", "N"]}
-    n_replayed = 0
-    by_len = {}
-    for cases, styles in plan:
-        for c in cases:
-            by_len[len(c["ls"])] = by_len.get(len(c["ls"]), 0) + 1
-        n_replayed += replay_cases(ctx, cases, styles)
-        if len(ctx.violations) >= ctx.max_violation_files:
-            break
-    ctx.extra["cases_by_length"] = {str(k): v for k, v in sorted(by_len.items())}
-    ctx.extra["concretizations_replayed"] = n_replayed
-    for cases, _ in plan:
-        pick = [c for c in cases if len(c["ls"]) >= 3 and "C" in c["ls"] and "H" in c["ls"]]
-        if pick:
-            c = pick[len(pick) // 2]
-            conc = concretize_case(random.Random(1), c, "ascii")
-            lines, expected = case_texts(c, conc)
-            ctx.sample("case mode=%s classes=%s -> lines=%s kinds=[%s] parts=[%s]" % (
-                c["m"], ",".join(c["ls"]), json.dumps(lines), kinds_str(c["k"]), parts_str(c["p"])))
+    try:
+        if plan is None:
+            rt = ctx.tlc_must_hold("ReproTokenizer", "MC_ReproTokenizer_bnd_thorough.cfg", workers=W,
+                                   want_tags={"CASE"})
+            ct = load_cases(rt)
+            plan = [([c for c in ct if len(c["ls"]) <= 3], ["canonical", "ascii", "wild", "wild", "wild", "wild"]),
+                    ([c for c in ct if len(c["ls"]) == 4], ["canonical", "wild"]),
+                    ([c for c in ct if len(c["ls"]) == 5], ["wild"])]
+        n_replayed = 0
+        by_len = {}
+        for cases, styles in plan:
+            for c in cases:
+                by_len[len(c["ls"])] = by_len.get(len(c["ls"]), 0) + 1
+            n_replayed += replay_cases(ctx, cases, styles)
+            if len(ctx.violations) >= ctx.max_violation_files:
+                break
+        ctx.extra["cases_by_length"] = {str(k): v for k, v in sorted(by_len.items())}
+        ctx.extra["concretizations_replayed"] = n_replayed
+        for cases, _ in plan:
+            pick = [c for c in cases if len(c["ls"]) >= 3 and "C" in c["ls"] and "H" in c["ls"]]
+            if pick:
+                c = pick[len(pick) // 2]
+                conc = concretize_case(random.Random(1), c, "ascii")
+                lines, expected = case_texts(c, conc)
+                ctx.sample("case mode=%s classes=%s -> lines=%s kinds=[%s] parts=[%s]" % (
+                    c["m"], ",".join(c["ls"]), json.dumps(lines), kinds_str(c["k"]), parts_str(c["p"])))
 
-    # 4. code -> spec
-    if len(ctx.violations) < ctx.max_violation_files:
-        ndocs, batch = (1200, 1200) if quick else (12000, 4000)
-        record_and_validate(ctx, g, ndocs, 40, batch)
-        ctx.traces += ndocs
-        ctx.evaluations += ndocs
-        ctx.extra["traces_recorded"] = ndocs
-    ctx.traces += n_replayed
-    if bg is not None:
-        bg.join()
-        if "err" in bg_res:
-            raise bg_res["err"]
+        # 4. code -> spec
+        if len(ctx.violations) < ctx.max_violation_files:
+            ndocs, batch = (1200, 1200) if quick else (12000, 4000)
+            record_and_validate(ctx, g, ndocs, 40, batch)
+            ctx.traces += ndocs
+            ctx.evaluations += ndocs
+            ctx.extra["traces_recorded"] = ndocs
+        ctx.traces += n_replayed
+    finally:
+        if bg is not None:
+            bg.join()       # never leave the background TLC run behind
+    if "err" in bg_res:
+        raise bg_res["err"]
 
 
 def replay(ctx, case):
